@@ -35,7 +35,7 @@ IDW = [(1, 1), (2, 2), (4, 4), (1, 2), (2, 1), (4, 1), (1, 4)]
 SEQW = [8, 16, 32]
 SEGS = [1, 2, 5, 64, None]
 CKSS = ["null", "modular", "crc32", "crc32c"]
-DESTS = ["file", "dir", "existing"]
+DESTS = ["file", "dir", "existing", "dir_existing"]
 
 
 def sizes_for(seg_eff: int) -> list[int]:
@@ -100,10 +100,68 @@ def gen_cases(tier, seed):
                rng.choice(DESTS), rng.choice(pac_names), content=rng.choice([0, 1, 2, "zeros", "ones", "ramp"]),
                md_only=rng.random() < 0.04)
         )
+    # consecutive put requests on one handler pair (every request must run to completion, whatever ran before)
+    nseq = 400 if tier == "quick" else 6000
+    for _ in range(nseq):
+        first = mk(rng.choice([2, 5, None]), rng.randrange(7), rng.choice(["min", "mid"]), rng.choice(["ack", "unack"]), rng.random() < 0.5,
+                   rng.choice(CKSS), rng.random() < 0.5, rng.choice(IDW), rng.choice(SEQW), rng.random() < 0.5, rng.choice(DESTS), "alt",
+                   content=rng.randrange(4))
+        first["seq"] = [rng.choice(["empty", "small", "multi", "md_only"]) for _ in range(rng.choice([2, 2, 3]))]
+        cases.append(first)
     return cases
 
 
+def run_sequence(case):
+    """several put requests, one after the other, on the same pair of handlers"""
+    cfg = dict(case["cfg"], metadata_only=False)
+    viol, obs = [], {}
+    with World(cfg) as w:
+        mon = C01Monitor(w)
+        seg = max(1, case["seg_eff"])
+        for i, kind in enumerate(case["seq"]):
+            size = {"empty": 0, "small": max(1, seg - 1), "multi": 2 * seg + 1, "md_only": 0}[kind]
+            w.cfg["metadata_only"] = kind == "md_only"
+            w.cfg["size"] = size
+            w.data = b"" if kind == "md_only" else bytes((7 * i + j) & 0xFF for j in range(size))
+            if kind != "md_only":
+                w.write_raw("src", w.src_path, w.data)
+            mark = w.log.seq
+            r = Runner(w, max_rounds=4 * 3 + 40, max_expiries=8)
+            try:
+                ok = w.put()
+                if not ok:
+                    viol.append({"clause": "put-request-refused", "transfer": i, "kind": kind})
+                    break
+                outcome = r.run()
+            except InternalError as e:
+                viol.append({"clause": "api-call-raised", "transfer": i, "kind": kind, "side": e.side, "etype": type(e.exc).__name__, "msg": str(e.exc)[:200]})
+                break
+            except Exception as e:  # noqa: BLE001
+                viol.append({"clause": "api-call-raised", "transfer": i, "kind": kind, "side": "S", "etype": type(e).__name__, "msg": str(e)[:200]})
+                break
+            v = success_end_state(w, r, outcome, since=mark)
+            if r.proto_exc:
+                v.append({"clause": "api-call-raised-protocol-exception", "exc": r.proto_exc[:5]})
+            for x in v:
+                x["transfer"] = i
+                x["kind"] = kind
+                x["sequence"] = case["seq"]
+                x["trace"] = trace_summary(w, r, 60)[-40:]
+            viol += v
+            if v:
+                break
+            obs["consecutive_transfers"] = obs.get("consecutive_transfers", 0) + 1
+            if i > 0:
+                obs["transfers_on_reused_handlers"] = obs.get("transfers_on_reused_handlers", 0) + 1
+        viol += mon.viol
+        obs["sequence_cases"] = 1
+        sig = {"cfg": {k: v for k, v in case["cfg"].items() if k != "content"}, "seq": case["seq"]}
+    return {"viol": viol, "sig": sig, "obs": obs, "sample": {"sequence": case["seq"]} if len(case["seq"]) > 2 else None}
+
+
 def run_case(case):
+    if "seq" in case:
+        return run_sequence(case)
     cfg = case["cfg"]
     viol = []
     obs = {}
@@ -151,4 +209,4 @@ def run_case(case):
     return {"viol": viol, "sig": sig, "obs": obs, "keys": keys, "sample": sample}
 
 
-REQUIRED = {"success_reports_checked": 100, "pdus_delivered": 1000}
+REQUIRED = {"success_reports_checked": 100, "pdus_delivered": 1000, "transfers_on_reused_handlers": 100, "dest_dir_existing": 20}
